@@ -336,17 +336,23 @@ class TInterp(MInterp):
                 i = self.ev(e["args"][0])
                 if isinstance(recv, sp.MatrixBase) and isinstance(i, int):
                     return list(recv[i, :]) if m == "row" else list(recv[:, i])
-            if m == "map" and len(e["args"]) == 1 and A.strip(e["args"][0]).get("k") == "Closure":
+            if m == "map" and len(e["args"]) == 1:
                 seq = self.ev(e["recv"])
-                clo = A.strip(e["args"][0])
-                ps = clo.get("inputs", clo.get("params"))
-                if isinstance(seq, list) and len(ps) == 1:
-                    out = []
-                    for item in seq:
-                        sub = TInterp(self.env)
-                        sub.bind(ps[0], item)
-                        out.append(sub.ev(clo["body"]))
-                    return out
+                a0 = A.strip(e["args"][0])
+                clo = a0 if a0.get("k") == "Closure" else None
+                if clo is None and a0.get("k") == "Path" and len(a0["segs"]) == 1:
+                    f_ = self.env.get(a0["segs"][0])
+                    if isinstance(f_, tuple) and f_ and f_[0] == "closure":
+                        clo = f_[1]
+                if clo is not None:
+                    ps = clo.get("inputs", clo.get("params"))
+                    if isinstance(seq, list) and len(ps) == 1:
+                        out = []
+                        for item in seq:
+                            sub = TInterp(self.env)
+                            sub.bind(ps[0], item)
+                            out.append(sub.ev(clo["body"]))
+                        return out
             if m in ("into", "clone") and not e["args"]:
                 return self.ev(e["recv"])
         if k == "Closure":
@@ -365,7 +371,27 @@ class TInterp(MInterp):
             segs = A.path_segs(e["func"]) or []
             if segs[-1:] == ["from"] and len(e["args"]) == 1:
                 return self.ev(e["args"][0])
+            if segs[-2:] == ["array", "from_fn"] and len(e["args"]) == 1 and A.strip(e["args"][0]).get("k") == "Closure" and self.env.get("#from_fn_len"):
+                clo = A.strip(e["args"][0])
+                ps = clo.get("inputs", clo.get("params"))
+                out = []
+                for item in range(self.env["#from_fn_len"]):
+                    sub = TInterp(self.env)
+                    sub.bind(ps[0], item)
+                    out.append(sub.ev(clo["body"]))
+                return out
             f = self.env.get(segs[0]) if len(segs) == 1 else None
+            if isinstance(f, tuple) and f and f[0] == "fn":
+                fn_ = f[1]
+                ps = [i_ for i_ in fn_["sig"]["inputs"] if isinstance(i_, dict) and "pat" in i_]
+                if len(ps) == len(e["args"]):
+                    sub = TInterp({k_: v_ for k_, v_ in self.env.items() if isinstance(v_, tuple) and v_ and v_[0] in ("fn", "closure")})
+                    for p_, a_ in zip(ps, e["args"]):
+                        sub.bind(p_["pat"], self.ev(a_))
+                    try:
+                        return sub.block(fn_["body"])
+                    except Done as dn:
+                        return dn.v
             if isinstance(f, tuple) and f and f[0] == "closure":
                 clo = f[1]
                 ps = clo.get("inputs", clo.get("params"))
@@ -397,9 +423,16 @@ def transform_cases(fn):
     Mt = sp.Matrix(4, 4, lambda i, j: sp.Symbol("m%d%d" % (i, j), real=True))
     env = {params[0]: x, params[1]: y, params[2]: z, params[3]: Mt}
     it = TInterp(env)
+    for st in A.walk(fn["body"]):
+        if isinstance(st, dict) and st.get("k") == "Fn" and st.get("body") is not None and st is not fn:
+            it.env[st["name"]] = ("fn", st)
+    import re as _re2
+
     for s in A.find(fn["body"], "Let"):
         if s.get("init") is None:
             continue
+        mlen = _re2.search(r";\s*(\d+)\s*\]", A.unparse(s["pat"])) if s["pat"].get("k") == "PType" else None
+        it.env["#from_fn_len"] = int(mlen.group(1)) if mlen else None
         try:
             v = it.ev(s["init"])
         except Exception as ex:  # noqa: BLE001
